@@ -27,6 +27,9 @@ var (
 	dbN    int
 )
 
+// wireHangAfter: a request that has not returned after this long counts as hanging (C14, C08).
+const wireHangAfter = 20 * time.Second
+
 func nowMs() int64 { return time.Now().UnixMilli() }
 
 // waitFreshMs spins until the wall clock has left the millisecond of the previous call, so the
@@ -203,6 +206,11 @@ func main() {
 	if len(os.Args) > 1 && os.Args[1] == "crash" {
 		os.Args = append(os.Args[:1], os.Args[2:]...)
 		crashMain()
+		return
+	}
+	if len(os.Args) > 1 && os.Args[1] == "srvconc" {
+		os.Args = append(os.Args[:1], os.Args[2:]...)
+		srvconcMain()
 		return
 	}
 	if len(os.Args) > 1 && os.Args[1] == "ro" {
